@@ -64,9 +64,9 @@ class Memo:
         Any :
             The results of calling the function with path.
         """
-        if path in self.cache and os.path.exists(path):
-            self.counter += 1
-            return self.cache[path]
+        # The filesystem may have changed since the last call, and a cached
+        # listing cannot be validated cheaply: always recompute, the cache
+        # only records the most recent result for each path.
         result = self.func(path)
         self.cache[path] = result
         return result
